@@ -149,6 +149,9 @@ theorem narrow_gate_spec (t : TFlags) (isNEQ isUp isInc : Bool)
     (isNEQ = true ∧ ((d = 1 ∧ s ≤ L) ∨ (d = -1 ∧ L ≤ s))) := by
   have hlt : ivBits t < 64 := ivBits_narrow hnar
   unfold decideTripCount at hdec
+  by_cases hgate : (narrowBoundMayWrap t iv.start || narrowBoundMayWrap t limit) = true
+  · rw [if_pos hgate] at hdec; cases hdec; simp [SCEV.eval] at hn
+  rw [if_neg hgate] at hdec
   cases hdc : directionCheck isNEQ isUp isInc iv limit with
   | done tc' =>
     rw [hdc] at hdec
@@ -424,5 +427,23 @@ example :
       iv.step) (.const 1)) iv.step))
     (fun _ => none) 1 5 250 50 rfl rfl rfl rfl (by decide) (by decide) rfl rfl hterm
     (fun h => absurd h (by decide))).2
+
+/-- REGRESSION for the defect repaired by "no trip count for a narrow counter whose bounds are
+    computed": `var x uint8 = 200; for i := x + 100; i < 50; i++`.  On unbounded integers the start
+    is 300, beyond the limit, so the "dead loop" pre-check of `directionCheck` stored the trip count
+    0; on `uint8` the counter starts at 300 mod 256 = 44 and the body runs 6 times (and not 0
+    times).  The repaired `decideTripCount` withholds the count. -/
+theorem C12_narrow_computed_bound_fixed :
+    let iv : InductionVariable := ⟨0, .basic, .generic "+" (.const 200) (.const 100), .const 1⟩
+    let limit := SCEV.const 50
+    ((∀ env : Val → Option Int, iv.start.eval env = some 300) ∧ ivWrap 97 300 = 44) ∧
+    (match directionCheck false true false iv limit with
+      | .done tc => some tc
+      | .proceed => none) = some (.const 0) ∧
+    ((Counted.mk 44 1 50 .lt).runsT 97 6 ∧ ¬ (Counted.mk 44 1 50 .lt).runsT 97 0) ∧
+    decideTripCount 97 false true false iv limit = some (.unknown none false) := by
+  refine ⟨⟨fun env => rfl, by decide +kernel⟩, rfl, ⟨?_, ?_⟩, rfl⟩
+  · unfold Counted.runsT; decide +kernel
+  · unfold Counted.runsT; decide +kernel
 
 end Sfw.Canon
